@@ -36,8 +36,11 @@ pub fn monitors_for(prop: &str) -> Vec<Box<dyn Monitor>> {
     }
 }
 
-pub fn profile_for(prop: &str, _tier: &str) -> Profile {
+pub fn profile_for(prop: &str, tier: &str) -> Profile {
     let mut p = Profile::default();
+    if tier == "thorough" {
+        p.long_pct = 12;
+    }
     match prop {
         "C08" => {
             p.faulted = true;
@@ -199,7 +202,7 @@ pub fn run(a: &Args, report: &mut Report, stats: &mut RunStats, _extra: &mut Val
             let cfg = rand_cfg(&mut g.rng, &prof);
             let mut h = History::new(&cfg, monitors_for(&a.prop), report, tag.clone());
             g.run_history(&mut h, report);
-            stats.absorb(&h, if prof.faulted { "W-FAULT" } else { "W-ENG" });
+            stats.absorb(&h, if prof.faulted { if h.steps >= 400 { "W-FAULT-long" } else { "W-FAULT" } } else if h.steps >= 400 { "W-ENG-long" } else { "W-ENG" });
         }));
         if let Err(p) = res {
             let text = p.downcast_ref::<String>().cloned().or_else(|| p.downcast_ref::<&str>().map(|s| s.to_string())).unwrap_or_default();
